@@ -139,6 +139,32 @@ func RegisterGen(g GenFile) { gens = append(gens, g) }
 
 // WriteGens regenerates every fragment; files whose content did not change are
 // left untouched (so lake does not rebuild), stale files are removed.
+// makeGuarded runs one generator with a ceiling and a recover: generators evaluate code of the tree (tabulation),
+// and a broken tree can make that code hang or panic.
+func makeGuarded(mk func(string) (string, error), repo string) (string, error) {
+	type res struct {
+		s   string
+		err error
+	}
+	ch := make(chan res, 1)
+	go func() {
+		defer func() {
+			if x := recover(); x != nil {
+				ch <- res{"", fmt.Errorf("generator panicked: %v", x)}
+			}
+		}()
+		s, err := mk(repo)
+		ch <- res{s, err}
+	}()
+	ceiling := 180 * time.Second
+	select {
+	case r := <-ch:
+		return r.s, r.err
+	case <-time.After(ceiling):
+		return "", fmt.Errorf("generator did not finish within %v (the code it evaluates hangs)", ceiling)
+	}
+}
+
 func WriteGens(repo, dir string) error {
 	if err := os.MkdirAll(dir, 0o755); err != nil {
 		return err
@@ -147,9 +173,18 @@ func WriteGens(repo, dir string) error {
 	sort.Slice(gens, func(i, j int) bool { return gens[i].Name < gens[j].Name })
 	for _, g := range gens {
 		want[g.Name] = true
-		content, err := g.Make(repo)
+		content, err := makeGuarded(g.Make, repo)
 		if err != nil {
-			return fmt.Errorf("gen %s: %w", g.Name, err)
+			// One fragment that cannot be produced (the extractor does not recognise the code any more, or the
+			// code it evaluates hangs or panics) takes down the theorems that import it, not every property:
+			// the file is written with an error in it, so that exactly its importers stop building.
+			fmt.Printf("gen: FAILED %s: %v\n", g.Name, err)
+			msg := strings.ReplaceAll(fmt.Sprintf("%v", err), "-/", "- /")
+			if len(msg) > 1500 {
+				msg = msg[:1500]
+			}
+			content = "/- `vh gen` could not produce this fragment from the tree:\n" + msg + "\n-/\n" +
+				"#check (vh_gen_failed_for_this_fragment__see_the_comment_above : Nat)\n"
 		}
 		content = "-- GENERATED by `vh gen` from /repo's working tree. Do not edit.\n" + content
 		path := filepath.Join(dir, g.Name)
